@@ -6,6 +6,7 @@
 //     stream carries the schema. Records handed to Write must come from the arrow/array model.
 //   * NewReader(r) reads the first token: empty input, a garbled token or a token that is not the first of
 //     its stream give (nil, error). Next() reads one token from r: end of input => false without error;
+//     (and, as in the real reader, the reader is finished for good: every later Next() is false too);
 //     garbled input or a token of another stream => false and Err() != nil; otherwise the record is
 //     materialised after consulting the supplied allocator with the record's declared cost; an allocator
 //     panic is recovered and becomes Err() wrapping the panic value with %w (ipc.(*Reader).next +
@@ -127,6 +128,8 @@ type Reader struct {
 	rec    arrow.Record
 	err    error
 	refs   int
+	done   bool // end of input was seen: like the real reader, no further message is ever read
+	held   []byte // buffer obtained from the allocator for the current record
 }
 
 func readToken(r io.Reader) (tok VerifToken, eof bool, err error) {
@@ -170,6 +173,9 @@ func (r *Reader) Retain()               { r.refs++ }
 
 func (r *Reader) Release() {
 	r.refs--
+	if r.refs == 0 {
+		r.freeHeld()
+	}
 	if r.refs == 0 && r.rec != nil {
 		r.rec.Release()
 		r.rec = nil
@@ -187,17 +193,25 @@ func (r *Reader) materialise(tok VerifToken) (err error) {
 		}
 	}()
 	if r.alloc != nil && tok.Cost > 0 {
-		r.alloc.Allocate(tok.Cost)
+		r.held = r.alloc.Allocate(tok.Cost)
 	}
 	return nil
 }
 
+func (r *Reader) freeHeld() {
+	if r.held != nil {
+		r.alloc.Free(r.held)
+		r.held = nil
+	}
+}
+
 func (r *Reader) Next() bool {
+	r.freeHeld()
 	if r.rec != nil {
 		r.rec.Release()
 		r.rec = nil
 	}
-	if r.err != nil {
+	if r.err != nil || r.done {
 		return false
 	}
 	var tok VerifToken
@@ -207,6 +221,7 @@ func (r *Reader) Next() bool {
 	} else {
 		t, eof, err := readToken(r.r)
 		if eof {
+			r.done = true
 			return false
 		}
 		if err != nil {
